@@ -222,3 +222,83 @@ func checkDirtyCover(c *core.Ctx, rule string) {
 	}
 	c.Floor(rule, n, 20, "assignments to encoded fields in model methods that manage a dirty marker")
 }
+
+// ---------------------------------------------------------------- C09.attach
+
+// checkSymbolInfoAttach — Coins.Commit writes a ticker's SymbolInfo (its owner) only through the
+// symbolInfo pointer of the base-version coin model: `if coin.IsSymbolInfoDirty() { … encode
+// coin.symbolInfo … }`. For coins loaded from disk that pointer is nil until somebody attaches the
+// SymbolInfo object, so a function that changes a SymbolInfo has to work on an object that is
+// attached to a coin model in the same function (or was read from one): otherwise the change
+// lives in the symbols map only and is gone after a restart — the previous owner owns the ticker
+// again.
+func checkSymbolInfoAttach(c *core.Ctx, rule string) {
+	pk := core.PkgState + "/coins"
+	model := c.Named(pk, "Model")
+	si := c.Named(pk, "SymbolInfo")
+	if model == nil || si == nil {
+		c.Unk(rule, "coins.Model/SymbolInfo", token.NoPos, "types not found")
+		return
+	}
+	// mutating methods of SymbolInfo: pointer-receiver methods that store to a field of the receiver
+	mutators := map[*ssa.Function]bool{}
+	ms := c.Prog.MethodSets.MethodSet(types.NewPointer(si))
+	for i := 0; i < ms.Len(); i++ {
+		fn := c.Prog.FuncValue(ms.At(i).Obj().(*types.Func))
+		if fn == nil || fn.Blocks == nil {
+			continue
+		}
+		for _, b := range fn.Blocks {
+			for _, in := range b.Instrs {
+				if st, ok := in.(*ssa.Store); ok {
+					if fa, ok := st.Addr.(*ssa.FieldAddr); ok && core.Unwrap(fa.X) == ssa.Value(fn.Params[0]) && token.IsExported(fieldNameOf(fa)) {
+						mutators[fn] = true
+					}
+				}
+			}
+		}
+	}
+	// Commit persists SymbolInfo only via Model.symbolInfo
+	if commit := c.Fn("(*" + pk + ".Coins).Commit"); commit != nil {
+		via := false
+		for _, s := range core.Sites(commit) {
+			if strings.HasSuffix(s.Callee, "rlp.EncodeToBytes") && strings.HasSuffix(core.Path(s.Arg(0)), ".symbolInfo") {
+				via = true
+			}
+		}
+		c.Check(via, rule, "Coins.Commit/via-model", commit.Pos(), "Commit encodes coin.symbolInfo", "Coins.Commit no longer persists the ticker info through coin.symbolInfo (the premise of this rule changed)")
+	}
+	n := 0
+	for _, fn := range c.SrcFuncs(pk) {
+		if fn.Signature.Recv() != nil && strings.HasSuffix(fn.Signature.Recv().Type().String(), "coins.SymbolInfo") {
+			continue
+		}
+		for _, s := range core.Sites(fn) {
+			sc := s.Common.StaticCallee()
+			if sc == nil || !mutators[sc] {
+				continue
+			}
+			n++
+			obj := s.Recv()
+			attached := false
+			// read from a model
+			if ld, ok := core.Unwrap(obj).(*ssa.UnOp); ok && ld.Op == token.MUL {
+				if fa, ok := ld.X.(*ssa.FieldAddr); ok && fieldNameOf(fa) == "symbolInfo" {
+					attached = true
+				}
+			}
+			// stored into a model in this function
+			for _, w := range c.FieldWrites(model, "symbolInfo") {
+				if w.Fn != fn {
+					continue
+				}
+				if st, ok := w.Instr.(*ssa.Store); ok && core.SameValue(st.Val, obj) {
+					attached = true
+				}
+			}
+			c.Check(attached, rule, core.ShortFn(fn)+"/"+sc.Name(), s.Pos(), "the changed SymbolInfo is the object attached to a coin model (what Commit persists)",
+				"a SymbolInfo is changed ("+sc.Name()+") without being attached to a coin model in "+core.ShortFn(fn)+": Commit persists ticker info only through coin.symbolInfo, so for a coin loaded from disk the change is never written — after a restart the ticker has its previous owner again")
+		}
+	}
+	c.Floor(rule, n, 1, "call sites that change a SymbolInfo")
+}
